@@ -35,7 +35,12 @@ _NONTRIVIAL = {'meta:example', 'meta:count', 'meta:relation', 'meta:definition',
 
 @st.composite
 def _cases(draw):
-    res = draw(gen.resources(max_lexicons=2))
+    res = draw(gen.resources(max_lexicons=3))
+    if len(res['lexicons']) > 1 and draw(st.integers(0, 3)) == 0:
+        # a file may hold an extension whose base lives elsewhere, followed by other lexicons
+        keep = [lx for lx in res['lexicons'][1:]]
+        if any(lx.get('extends') for lx in keep):
+            res = {'lmf_version': res['lmf_version'], 'lexicons': keep}
     style = draw(xmlw.styles())
     has_ext = any(lx.get('extends') for lx in res['lexicons'])
     targets = ['1.1', '1.2', '1.3'] if has_ext else list(gen.VERSIONS)
@@ -45,6 +50,9 @@ def _cases(draw):
 def _classify(case):
     tags = gen.resource_tags(case['resource'])
     tags.append('target-' + case['target'])
+    kinds = ['x' if lx.get('extends') else 'p' for lx in case['resource']['lexicons']]
+    if 'xp' in ''.join(kinds):
+        tags.append('extension-before-plain-lexicon')
     if case['target'] != case['resource']['lmf_version']:
         tags.append('cross-version')
     return bool(_NONTRIVIAL & set(tags)), tags
@@ -97,5 +105,6 @@ def _fp(case):
 SUBS = [
     Sub('roundtrip', oracle, _classify, strategy=lambda tier: _cases(),
         budget={'quick': 60, 'thorough': 2000}, fingerprint=_fp,
-        require_tags=('extension', 'cross-version', 'meta:example', 'text-over-8k')),
+        require_tags=('extension', 'cross-version', 'meta:example', 'text-over-8k',
+                      'extension-before-plain-lexicon')),
 ]
